@@ -3,6 +3,7 @@ package checks
 import (
 	"bytes"
 	"fmt"
+	"math"
 	"strings"
 	"testing"
 	"testing/iotest"
@@ -99,6 +100,96 @@ func c08Shallow(r ion.Reader, f *c08Frame) string {
 		}
 	} else if r.IsInStruct() {
 		return "IsInStruct()=true outside a struct"
+	}
+	return ""
+}
+
+// c08Accessors calls every accessor that matches kind k, in an order chosen by
+// pick, and renders the results; calling them again (in another order) must give
+// the same results: no accessor may change what another one reports.
+func c08Accessors(r ion.Reader, k model.Kind, pick int) string {
+	type acc struct {
+		name string
+		call func() string
+	}
+	var all []acc
+	switch k {
+	case model.Int:
+		all = []acc{
+			{"IntSize", func() string { v, err := r.IntSize(); return fmt.Sprint(v, err) }},
+			{"IntValue", func() string {
+				v, err := r.IntValue()
+				if v == nil {
+					return fmt.Sprint("nil ", err)
+				}
+				return fmt.Sprint(*v, err)
+			}},
+			{"Int64Value", func() string {
+				v, err := r.Int64Value()
+				if v == nil {
+					return fmt.Sprint("nil ", err)
+				}
+				return fmt.Sprint(*v, err)
+			}},
+			{"BigIntValue", func() string { v, err := r.BigIntValue(); return fmt.Sprint(v, err) }},
+		}
+	case model.Bool:
+		all = []acc{{"BoolValue", func() string {
+			v, err := r.BoolValue()
+			if v == nil {
+				return fmt.Sprint("nil ", err)
+			}
+			return fmt.Sprint(*v, err)
+		}}}
+	case model.Float:
+		all = []acc{{"FloatValue", func() string {
+			v, err := r.FloatValue()
+			if v == nil {
+				return fmt.Sprint("nil ", err)
+			}
+			return fmt.Sprint(math.Float64bits(*v), err)
+		}}}
+	case model.Decimal:
+		all = []acc{{"DecimalValue", func() string { v, err := r.DecimalValue(); return fmt.Sprint(v, err) }}}
+	case model.Timestamp:
+		all = []acc{{"TimestampValue", func() string {
+			v, err := r.TimestampValue()
+			if v == nil {
+				return fmt.Sprint("nil ", err)
+			}
+			return fmt.Sprint(v.String(), err)
+		}}}
+	case model.String:
+		all = []acc{{"StringValue", func() string {
+			v, err := r.StringValue()
+			if v == nil {
+				return fmt.Sprint("nil ", err)
+			}
+			return fmt.Sprintf("%q %v", *v, err)
+		}}}
+	case model.Symbol:
+		all = []acc{{"SymbolValue", func() string {
+			v, err := r.SymbolValue()
+			if v == nil {
+				return fmt.Sprint("nil ", err)
+			}
+			return fmt.Sprintf("%v %v", v.String(), err)
+		}}}
+	case model.Clob, model.Blob:
+		all = []acc{{"ByteValue", func() string { v, err := r.ByteValue(); return fmt.Sprintf("%x %v %v", v, v == nil, err) }}}
+	default:
+		return ""
+	}
+	first := map[string]string{}
+	for i := range all {
+		a := all[(pick+i)%len(all)]
+		first[a.name] = a.call()
+	}
+	for i := len(all) - 1; i >= 0; i-- {
+		a := all[(pick/4+i)%len(all)]
+		if again := a.call(); again != first[a.name] {
+			return fmt.Sprintf("%s returned %s, and %s when called again after the other accessors", a.name, first[a.name], again)
+		}
 	}
 	return ""
 }
@@ -206,9 +297,10 @@ func runC08(c C08Case) string {
 			}
 			return c08Shallow(r, f)
 		}
+		hold := &drive.Holder{}
 		doRead := func() string {
 			f := top()
-			got, err := drive.ObserveCurrent(r)
+			got, err := drive.ObserveCurrentH(r, hold)
 			if err != nil {
 				return fmt.Sprintf("reading the current value fails: %v (full traversal saw %s)", err, model.SeqString(f.kids[f.idx:f.idx+1]))
 			}
@@ -278,6 +370,12 @@ func runC08(c C08Case) string {
 				top().on = false
 			case kind < 15:
 				trace = append(trace, "read")
+				if arg%2 == 1 {
+					if msg = c08Accessors(r, f.kids[f.idx].Kind, arg/2); msg != "" {
+						break
+					}
+					classes["accessors-any-order"] = true
+				}
 				msg = doRead()
 			case kind < 18:
 				name := c08Wrong(r, f.kids[f.idx].Kind, arg)
@@ -327,6 +425,10 @@ func runC08(c C08Case) string {
 		}
 		if e := r.Err(); e != nil {
 			msg = fmt.Sprintf("Err()=%v at the end of a document the full traversal read cleanly", e)
+			return
+		}
+		if e := hold.Check(); e != nil {
+			msg = e.Error()
 		}
 	}()
 	if panicked {
@@ -346,14 +448,14 @@ func runC08(c C08Case) string {
 			nontrivial = true
 		}
 	}
-	for _, k := range []string{"skip-unread-container", "skip-unread-scalar", "stepout-early", "refused-stepin", "refused-stepout", "wrong-accessor"} {
+	for _, k := range []string{"skip-unread-container", "skip-unread-scalar", "stepout-early", "refused-stepin", "refused-stepout", "wrong-accessor", "accessors-any-order"} {
 		if classes[k] {
 			cl = append(cl, k)
 		}
 	}
 	h := model.DigestBytes("C08", c.Doc)
 	for _, o := range c.Ops {
-		h = h*1099511628211 ^ uint64(o%20)
+		h = h*1099511628211 ^ uint64(o%20) ^ uint64(o/20%2)<<8
 	}
 	st.Eval(nontrivial, h, cl...)
 	st.Sample(func() string {
